@@ -1,7 +1,6 @@
 SPECIFICATION TraceSpec
-CONSTANTS
-  Relaxed = TRUE
-  RelaxedOs = TRUE
+CONSTANT Relaxed = TRUE
+CONSTANT HasCfree = FALSE
 INVARIANT Inv
 POSTCONDITION TraceAccepted
 CHECK_DEADLOCK FALSE
